@@ -90,7 +90,7 @@ pub fn gen_corrupt(seed: u64) -> Plan {
         };
         v.push(Op { id: ids.next(), kind: OpKind::Mutate { dir: dir.clone(), target, action: action.into(), off, len, arg } });
     }
-    v.push(Op { id: ids.next(), kind: OpKind::Open { inst: 0, key: Some("k".into()), dir: "d".into(), alo: open_alo, fsync: open_fsync } });
+    v.push(Op { id: ids.next(), kind: OpKind::Open { inst: 0, key: Some("k".into()), dir: "d".into(), alo: open_alo, fsync: open_fsync, via_env: false } });
     let n_topics = plan.topics.len() as u32;
     for t in 0..n_topics {
         v.push(Op { id: ids.next(), kind: OpKind::Count { inst: 0, topic: t } });
